@@ -30,7 +30,8 @@ RULE = (
     "enumeration of 'reject_grid' -> ValueError iff the statement's predicate, success otherwise. "
     "Non-trivial = some duration is an exact decimal multiple of w whose float quotient is not an integer."
 )
-MUST_HIT = ["event_completed_by_partial_last_window", "input_region", "more_than_256_windows", "input_overlapping_reader", "reader_with_conflicting_window_argument", "hostile_min", "hostile_max", "hostile_sil", "input_reader", "event_of_exactly_minwin", "window_not_whole_samples",
+MUST_HIT = ["event_completed_by_partial_last_window", "input_region", "more_than_256_windows", "input_overlapping_reader", "reader_with_conflicting_window_argument", "hostile_min", "hostile_max", "hostile_sil", "input_reader", "event_of_exactly_minwin", "window_not_whole_samples", "int_typed_window_and_min_dur",
+            "grid_int_typed_durations", "grid_accept_with_max_read", "grid_reader_duration_beyond_a_million_samples",
             "grid_reject", "grid_accept"]
 ASSUMPTIONS = [
     "quotients between 1e-11 and 1e-8 from an integer are never generated (statement says 1e-9, code uses 1e-10)",
@@ -115,6 +116,12 @@ def check_case(case, rec):
     mind = dur_value(case["min"], wlit)
     maxd = dur_value(case["max"], wlit)
     sild = dur_value(case["sil"], wlit) if case["sil"][0] or case["sil"][1] != "mul" else 0
+    if case.get("ints") and not case.get("wf") and w == int(w):
+        # whole numbers of seconds handed over as ints
+        w = int(w)
+        w_eff = (B / sr) if via_reader else w
+        mind, maxd, sild = (int(v) if v == int(v) else v for v in (mind, maxd, sild))
+        classes.add("int_typed_window" + ("_and_min_dur" if isinstance(mind, int) else ""))
     kmin, g1 = window_count(mind, w_eff, "min")
     kmax, g2 = window_count(maxd, w_eff, "max")
     ksil, g3 = window_count(sild, w_eff, "sil")
@@ -208,12 +215,23 @@ def grid_expect(mind, maxd, sild, w, sr):
 
 def check_grid(case, rec):
     mind, maxd, sild, w, sr = case["grid"]
-    reject = grid_expect(mind, maxd, sild, w, sr)
-    data = b"\0\0" * 40
     kind = case.get("input", "bytes")
+    w_eff = w
+    if kind == "reader" and w > 0 and math.floor(Fraction(w) * sr) >= 1:
+        w_eff = math.floor(Fraction(w) * sr) / sr  # a reader's own block duration is the window
+    reject = grid_expect(mind, maxd, sild, w_eff, sr)
+    data = b"\0\0" * 40
     kw = dict(min_dur=mind, max_dur=maxd, max_silence=sild, analysis_window=w)
+    if case.get("mr") is not None:
+        # how much is going to be read has no say in whether the durations are a valid combination
+        kw["max_read"] = case["mr"]
     try:
-        if kind == "bytes":
+        if kind == "reader":
+            kw.pop("analysis_window")
+            mr = kw.pop("max_read", None)
+            rd = auditok.AudioReader(data, block_dur=w, sampling_rate=sr, sample_width=2, channels=1, max_read=mr)
+            res = list(auditok.split(rd, **kw))
+        elif kind == "bytes":
             res = list(auditok.split(data, sampling_rate=sr, sample_width=2, channels=1, **kw))
         elif kind == "region_fn":
             res = list(auditok.split(auditok.AudioRegion(data, sr, 2, 1), **kw))
@@ -222,7 +240,14 @@ def check_grid(case, rec):
         raised = None
     except ValueError as exc:
         raised = exc
-    rec.note(case, True, ["grid_reject" if reject else "grid_accept"], out="ValueError" if raised else "ok")
+    labels = ["grid_reject" if reject else "grid_accept"]
+    if case.get("mr") is not None and not reject:
+        labels.append("grid_accept_with_max_read")
+    if all(isinstance(v, int) for v in (mind, maxd, sild, w)):
+        labels.append("grid_int_typed_durations")
+    if kind == "reader" and not reject and maxd * sr > 10**6:
+        labels.append("grid_reader_duration_beyond_a_million_samples")
+    rec.note(case, True, labels, out="ValueError" if raised else "ok")
     if reject and raised is None:
         raise Violation(f"split accepted (min,max,sil,w,rate)={case['grid']}, ValueError expected", case)
     if not reject and raised is not None:
@@ -251,6 +276,12 @@ def explicit_cases():
         dict(base, sr=10, wf=[2, 0.5], min=[2, "mul"], max=[4, "mul"], sil=[1, "mul"]),
         dict(base, sr=10, wf=[2, 0.5], min=[2, "mul"], max=[4, "mul"], sil=[1, "mul"], via_reader=True),
         dict(base, sr=100, wf=[5, 0.75], min=[3, "third"], max=[30, "mul"], sil=[0, "mul"]),
+        dict(base, sr=10, w="2", ints=True, min=[1, "half"], max=[5, "mul"], sil=[1, "mul"], order="abcd"),   # min_dur=3, window=2
+        dict(base, sr=10, w="2", ints=True, min=[2, "half"], max=[4, "half"], sil=[0, "half"], order="abcdgh", input="region_fn"),
+        dict(base, sr=8, w="3", ints=True, min=[1, "third"], max=[3, "mul"], sil=[1, "mul"], order="abc", input="region_method"),
+        dict(base, sr=8, w="1", ints=True, min=[2, "mul"], max=[6, "mul"], sil=[2, "mul"], order="abcdef", via_reader=True),
+        # more than a million samples per max_dur through a 48 kHz reader: 641 windows of 0.05 s
+        dict(base, sr=48000, w="0.05", via_reader=True, min=[3, "mul"], max=[641, "mul"], sil=[2, "mul"], order="h"),
         {"grid": [0.07, 0.1, 0.05, 0.01, 1000]},
         {"grid": [0.07, 0.07, 0.0, 0.01, 1000]},
         {"grid": [0.3, 0.3, 0.3, 0.1, 16000]},
@@ -271,6 +302,21 @@ def explicit_cases():
         {"grid": [10.0, (1000 - 5e-7) * 0.01, 0.0, 0.01, 1000]},
         {"grid": [5.0, 10.0, (1000 - 5e-7) * 0.01, 0.01, 1000]},
         {"grid": [5.0, 10.0, (1000 + 5e-7) * 0.01, 0.01, 1000]},
+        # max_read shorter than min_dur / than max_silence: still a valid combination (there is just less to detect)
+        {"grid": [0.5, 5, 0.2, 0.1, 10], "mr": 0.3}, {"grid": [0.1, 5, 0.3, 0.1, 10], "mr": 0.3},
+        {"grid": [0.2, 5, 0.4, 0.1, 10], "mr": 0.25, "input": "region_fn"}, {"grid": [1.0, 2.0, 0.5, 0.1, 10], "mr": 0.9, "input": "reader"},
+        {"grid": [0.5, 5, 0.2, 0.1, 10], "mr": 0.0}, {"grid": [0.3, 0.2, 0.0, 0.1, 10], "mr": 0.3},
+        # durations and window given as ints (seconds)
+        {"grid": [3, 2, 0, 2, 10]}, {"grid": [3, 4, 0, 2, 10]}, {"grid": [3, 3, 1, 2, 10], "input": "region_fn"},
+        {"grid": [5, 6, 4, 2, 10], "input": "region_method"}, {"grid": [5, 6, 6, 3, 10]}, {"grid": [4, 3, 0, 3, 10], "input": "reader"},
+        {"grid": [1, 1, 0, 1, 8]}, {"grid": [7, 8, 3, 4, 8], "input": "reader"},
+    ] + [
+        # reader inputs at 48 kHz with durations beyond a million samples: n windows of 0.05 s is n windows
+        {"grid": [round(n * 0.05, 2), round(n * 0.05, 2), 0, 0.05, 48000], "input": "reader"} for n in (641, 646, 651, 656, 700, 1000, 1203)
+    ] + [
+        {"grid": [round(n * 0.05, 2), round((n - 1) * 0.05, 2), 0, 0.05, 48000], "input": "reader"} for n in (641, 1000)
+    ] + [
+        {"grid": [0.05, round(n * 0.02, 2), round((n - 1) * 0.02, 2), 0.02, 44100], "input": "reader"} for n in (1201, 1500, 2000, 3001)
     ]
 
 
@@ -302,7 +348,14 @@ def strategy(draw):
         sr = draw(st.sampled_from([10, 100, 1000]))
         B = draw(st.integers(1, 8))
         wf = [B, draw(st.sampled_from([0.25, 0.5, 0.75]))]
+    ints = False
+    if wf is None and not big and draw(rarely(8)):
+        sr, w, ints = draw(st.sampled_from([8, 10])), draw(st.sampled_from(["1", "2", "3"])), True
+        kmax = min(kmax, 12)
+        kmin, ksil = min(kmin, kmax), min(ksil, kmax - 1)
+        B = int(w) * sr
     return {
+        "ints": ints,
         "sr": sr, "w": w, "wf": wf,
         "min": [kmin if fmin in ("mul", "hair_down") else kmin - 1, fmin],
         "max": [kmax, fmax], "sil": [ksil, fsil],
